@@ -193,7 +193,6 @@ theorem args_before_lookup {W : Type} (cfg : Config W) (call : CallFn W) (locals
     · intro hf; rw [evalExpr]; simp only [hn, if_false, h, hf]
     · intro hf; rw [evalExpr]; simp only [hn, if_false, h, hf]
     · intro fv hf hnn; rw [evalExpr]; simp only [hn, if_false, h, hf]
-      cases fv <;> first | rfl | exact absurd rfl hnn
   · intro e st1 h
     rw [evalExpr]; simp only [hn, if_false, h]
 
